@@ -36,6 +36,22 @@ def corruptions(rng, base, quick=True, cap=110):
     for i in range(len(base)):
         if base[i] == 0 and (i % 32 in (0, 11, 31) or rng.random() < 0.05):
             out.append((f"CB {i} 1", lambda b, i=i: b[:i] + b"\x01" + b[i + 1:]))
+    # directed: every word that looks like an offset (a multiple of 32 inside the payload; element / member head words
+    # of nested dynamic types) is replaced by pointers near 2^256: after wrap-around they alias the count word, the
+    # enclosing offset word or memory in front of the payload.  These are never dropped by the cap and go to every
+    # memory / returndata entry point (fn.prio).
+    prio = []
+    offs = [i for i in words if 0 < int.from_bytes(base[32 * i:32 * i + 32], "big") <= len(base)
+            and int.from_bytes(base[32 * i:32 * i + 32], "big") % 32 == 0]
+    pick = offs if len(offs) <= 3 else [offs[0], offs[1], offs[len(offs) // 2], offs[-1]]
+    for i in dict.fromkeys(pick):
+        for x in (W - 32, W - 64, (W - 32 * (i + 2)) % W, 2 ** 255):
+            term = f"CW {i} {hex(x)}"
+            fn = (lambda b, i=i, x=x: b[:32 * i] + x.to_bytes(32, "big") + b[32 * i + 32:])
+            fn.prio = True
+            prio.append((term, fn))
+    ptxt = {c for c, _ in prio}
+    out = [c for c in out if c[0] not in ptxt]
     # truncations / extensions first (they are given to every entry point), then the word/byte corruptions
     te = [c for c in out if c[0].startswith(("CT", "CX"))]
     rest = [c for c in out if not c[0].startswith(("CT", "CX"))]
@@ -44,7 +60,7 @@ def corruptions(rng, base, quick=True, cap=110):
             te = te[:9] + te[9::max(1, (len(te) - 9) // 21)][:21]
         rng.shuffle(rest)
         rest = rest[:cap - len(te)]
-    out = te + rest
+    out = te + prio + rest
     return out
 
 
